@@ -21,6 +21,7 @@ import ModVerif.Proofs.EditMoreSepG
 import ModVerif.Proofs.EditMoreNoPanic
 import ModVerif.Proofs.EditMarkerInv
 import ModVerif.Proofs.EditPanicRun
+import ModVerif.Proofs.EditReparseF
 namespace ModVerif.Props.C15
 open ModVerif ModVerif.EditSpec ModVerif.Modfile
 
@@ -601,5 +602,150 @@ example : Edit.P.Inv (Edit.load {}) ∧
       .cleanup, .setRequire [⟨B "b", B "v1.1.0", false⟩, ⟨B "c", B "v1.0.0", true⟩] true, .dropRequire (B "c"), .cleanup,
       .setRequireSeparateIndirect [⟨B "d", B "v1.0.0", true⟩] false] = true :=
   ⟨inv_forget_marker _ Inv_empty, by decide +kernel⟩
+
+/-! ### The typed lists equal the strict re-parse of the formatted file (Proofs/EditReparse{A,B,C,D,E,F}.lean)
+
+    HALF 1 (`Edit.Inv`, above) composed with C02's print/parse round trip (HALF 2).  C02's clause 3 is stated for the tree of
+    a strict parse; its second half only needs the SHAPE of the tree (`EWFStmts`, `NlOK`, no header comment) and a first run
+    of the directive layer over it that reports no error and rewrites no token (`Proofs.EditReparse.reparse_of_first_run`).
+    For an edited tree the first run is supplied by the invariant: every live line renders a typed entry (`Edit.Rend` = the
+    `acc` relations of `Edit.entries`), and on such a line the strict `File.add` appends exactly that entry
+    (`reparse_one_line`).  Vocabulary: `Edit.Item` = the value of one directive; `Edit.ItemOK it` = the strict parser accepts
+    the value and reads it back unchanged (canonical version fitting the path's major version, `go` / `toolchain` texts
+    matching their regular expressions, paths neither empty nor a lone bracket / comma, raw tokens that need no quotes);
+    `Edit.AbsOK a` = every value of the abstract file is `ItemOK` (Boolean test `absOKB`); `Edit.ArgsOK op` = the values the
+    operation may write are `ItemOK` (`argsOKB`); `Edit.AbsPerm a b` = scalars equal, every list equal AS A MULTISET,
+    retractions compared by interval (the rationale is where `C15_violated_retract_*` live, it is not compared);
+    `Edit.finalTreeB t` = the conditions on the FINAL tree that are assumed, not derived: blocks carry block verbs (no
+    `go (` / `toolchain (` block — true of every reachable tree, not proved), and the comments stand where the parser puts
+    them (`comStmtB`: `//` texts, a blank-line placeholder only inside a block, not at its start and not after another one,
+    at most one end-of-line comment per line / `(` / `)`, no header comment).  The last condition can genuinely fail after
+    edits (SortBlocks moves a line preceded by a blank line to the top of its block: `C15_violated_retract_blank_line_dropped`
+    — then `Format` drops the blank line and C02's rendering lemma does not apply). -/
+
+/-- **Render–reparse for one line, every verb** (step (1)).  `I`: items with the ids of their lines, pairwise different
+    ids, every item readable, at most one module / go / toolchain item (`Edit.IOK`).  A line whose full tokens `verb :: args`
+    and end-of-line comments render an item of `I` not processed yet (`Edit.FI`: the state of the run, no error so far, its
+    typed lists = the items processed so far): the strict `File.add` appends exactly that item, reports no error and returns
+    the arguments UNCHANGED — `add_step_fixpoint` for lines written by the edit operations rather than by the parser. -/
+theorem reparse_one_line {I : List (Nat × Edit.Item)} (hI : Edit.IOK I) (st : AddState) (Q : List (Nat × Edit.Item))
+    (hfi : Edit.FI I st Q) (block : Option Comments) (l : Line) (verb : Bytes) (args : List Bytes) (it : Edit.Item)
+    (hmem : (l.id, it) ∈ I) (hfresh : l.id ∉ Q.map (·.1)) (hr : Edit.Rend it (verb :: args) l.comments.suffix) :
+    ∃ st', File.add st block l verb args none true = (st', args) ∧ Edit.FI I st' (Q ++ [(l.id, it)]) :=
+  Edit.add_item hI st Q hfi block l verb args it hmem hfresh hr
+
+/-- the first run over a whole tree: no error, no token rewritten, typed file = the items, as a multiset -/
+theorem reparse_first_run {I : List (Nat × Edit.Item)} (hI : Edit.IOK I) (T : FileSyntax) (hnd : (Edit.treeIds T.stmts).Nodup)
+    (hok : ∀ x ∈ T.stmts, Edit.StmtOK I x) (hsurj : ∀ q ∈ I, q.1 ∈ Edit.treeIds T.stmts) :
+    ∃ st1, addStmts none true { file := { syn := T } } T.stmts = (st1, T.stmts) ∧ st1.errsRev = [] ∧
+      (Edit.items st1.file).Perm I :=
+  Edit.first_run hI T hnd hok hsurj
+
+/-- **typed_eq_reparse for a STATE.**  Any state of the edit model satisfying the tree invariant, with live entries only
+    and lines with tokens only (a Cleanup has run), readable values, block verbs on blocks and the comment placement of a
+    parsed file: the strict parser accepts `Format` of the tree and returns the same directives (`AbsPerm`). -/
+theorem typed_eq_reparse_state (name : Bytes) (e : Edit.EFile) (hi : Edit.Inv e) (hl : Edit.AllLive e.f) (hv : Edit.VOK e.f)
+    (hll : Edit.LinesLive e.f.syn.stmts) (hgb : Edit.GoodBlocks e.f.syn.stmts) (hcom : Edit.comShapeB e.f.syn = true) :
+    ∃ g, parseStrict name (format e.f.syn) none = .ok g ∧ Edit.AbsPerm (Edit.absOf g) (Edit.absOf e.f) :=
+  Edit.reparse_of_inv name e hi hl hv hll hgb hcom
+
+/-- **typed_eq_reparse (partial).**  For EVERY go.mod text accepted by the strict parser (no version fixer, as in
+    `sessionMod`) with well-formed keys, no block suffix comment (`C15_violated_empty_block_suffix_comment`) and settable
+    markers (`C16_violated_indirect_marker_survives`) — the hypotheses of `typed_eq_tree_partial4_static` — and EVERY statically
+    valid session: if the session has an outcome `o` (it always runs to completion: `nilDeref_unreachable`), then the strict
+    re-parse of the formatted file succeeds, `o.reparsed = some r`, and `r` has the same module path, go version and
+    toolchain and, as multisets, the same godebugs, requirements WITH indirect flags, excludes, replaces, retract intervals
+    and tools as the typed lists after the final Cleanup (`o.typed`).
+    ASSUMED OF THE FINAL STATE (decidable, Boolean tests): `Edit.AbsOK o.typed` (readable values; discharged from the
+    starting file and the arguments in `typed_eq_reparse_partial2`) and `Edit.finalTreeB o.tree` (see the section comment).
+    Not compared: retract rationales, `Module.Deprecated`.  Not covered: parsing with a version fixer. -/
+theorem typed_eq_reparse_partial (file : Bytes) (ops : List Edit.Op) (o : Edit.Outcome) (f : File)
+    (hf : parseStrict (B "go.mod") file none = .ok f) (hk : Edit.WellFormedKeys f) (hs : Edit.NoBlockSuffix f.syn)
+    (hm : Edit.MarkersSettable f.syn.stmts) (hv : Edit.StaticValid false ops)
+    (h : Edit.sessionMod file ops = some o) (hok : Edit.AbsOK o.typed) (htree : Edit.finalTreeB o.tree = true) :
+    ∃ r, o.reparsed = some r ∧ Edit.AbsPerm r o.typed :=
+  Edit.typed_eq_reparse_session file ops o f hf hk hs hm hv h hok htree
+
+/-- the same in terms of `runOps` / `cleanup` / `format` / `parseStrict` -/
+theorem typed_eq_reparse_partial_run (name name' data : Bytes) (f : File) (ops : List Edit.Op) (e' : Edit.EFile) (res : List Bool)
+    (hf : parseToFile name data none true = .ok f) (hk : Edit.WellFormedKeys f) (hs : Edit.NoBlockSuffix f.syn)
+    (hm : Edit.MarkersSettable f.syn.stmts) (hv : Edit.StaticValid false ops)
+    (h : Edit.runOps Edit.applyMod (Edit.load f) ops [] 0 = .done e' res)
+    (hok : Edit.AbsOK (Edit.absOf (Edit.cleanup e').f)) (htree : Edit.finalTreeB (Edit.cleanup e').f.syn = true) :
+    ∃ g, parseStrict name' (format (Edit.cleanup e').f.syn) none = .ok g ∧
+      Edit.AbsPerm (Edit.absOf g) (Edit.absOf (Edit.cleanup e').f) :=
+  Edit.typed_eq_reparse_run name name' data f ops e' res hf hk hs hm hv h hok htree
+
+/-- readable values are preserved by every step of the specification's step table with readable arguments, and are
+    invariant under `Rel` — how `AbsOK o.typed` is read off the starting file and the operation list -/
+theorem readable_values_closed (V : Validity) (a b : AbsFile) (op : EditSpec.Op) (h : Edit.AbsOK a) (ho : Edit.ArgsOK op)
+    (hr : Rel b (step V a op)) : Edit.AbsOK (step V a op) ∧ Edit.AbsOK b :=
+  ⟨(Edit.absOK_iff _).2 (((Edit.absOK_iff _).1 h).step V op ho),
+   (Edit.absOK_iff _).2 (Edit.AbsOKF.of_rel hr (((Edit.absOK_iff _).1 h).step V op ho))⟩
+
+/-- **typed_eq_reparse (partial 2): the values condition is on the STARTING file and the OPERATION LIST.**  As
+    `typed_eq_reparse_partial`, with `AbsOK o.typed` replaced by `AbsOK (absOf f)` (the starting file is well formed in C02's
+    sense: canonical versions, readable paths) and `ArgsOK` of every operation (decidable: `argsOKB`); the operations are
+    go.mod operations.  Also returns C08's `Rel o.typed (run …)`.  The one remaining condition on the final state is
+    `finalTreeB o.tree`. -/
+theorem typed_eq_reparse_partial2 (file : Bytes) (ops : List Edit.Op) (o : Edit.Outcome) (f : File)
+    (hf : parseStrict (B "go.mod") file none = .ok f) (hk : Edit.WellFormedKeys f) (hs : Edit.NoBlockSuffix f.syn)
+    (hm : Edit.MarkersSettable f.syn.stmts) (hstart : Edit.AbsOK (Edit.absOf f)) (hv : Edit.StaticValid false ops)
+    (hmod : ∀ op ∈ ops, Edit.IsModOp op) (hargs : ∀ op ∈ ops, Edit.ArgsOK op.toSpec)
+    (h : Edit.sessionMod file ops = some o) (htree : Edit.finalTreeB o.tree = true) :
+    ∃ r, o.reparsed = some r ∧ Edit.AbsPerm r o.typed ∧ Rel o.typed (run stdValidity o.start (ops.map Edit.Op.toSpec)) :=
+  Edit.typed_eq_reparse_session2 file ops o f hf hk hs hm hstart hv hmod hargs h htree
+
+/-- non-vacuity of `typed_eq_reparse_partial` / `typed_eq_reparse_partial2` / `typed_eq_reparse_state`: a parsed go.mod (quoted
+    path, blocks, whole-line and end-of-line comments, an `// indirect; why` marker) satisfies the start conditions incl.
+    `AbsOK`; the session (both bulk setters, every kind of Add, SortBlocks) is statically valid with readable arguments and
+    has an outcome whose final tree passes `finalTreeB` and whose typed values are readable; and the conclusion is about
+    MULTISETS for a reason: the typed exclude list and the re-parsed one differ in order. -/
+example :
+    let src := B "module \"example.com/m\"\n\ngo 1.21\n\nrequire (\n\texample.com/a v1.0.0 // indirect; why\n\t// keep\n\texample.com/b v1.2.3\n)\nrequire example.com/c v1.0.0 // c\nexclude (\n\texample.com/z v1.0.0\n\texample.com/y v1.0.0\n)\nretract [v1.1.0, v1.2.0] // bad\n"
+    let ops : List Edit.Op := [.addRequire (B "example.com/d") (B "v1.0.0"), .cleanup,
+          .setRequireSeparateIndirect [⟨B "example.com/a", B "v1.4.0", false⟩, ⟨B "example.com/e", B "v1.0.0", true⟩, ⟨B "example.com/c", B "v1.0.0", true⟩] true,
+          .cleanup, .setRequire [⟨B "example.com/a", B "v1.5.0", true⟩, ⟨B "example.com/q", B "v0.5.0", false⟩] false, .addTool (B "example.com/t"),
+          .addReplace (B "example.com/a") [] (B "../a") [], .addReplace (B "example.com/b") (B "v1.0.0") (B "example.com/c") (B "v1.2.0"),
+          .addGodebug (B "panicnil") (B "1"), .addRetract (B "v1.0.0") (B "v1.0.0") (B "bad"), .addExclude (B "example.com/z") (B "v1.1.0"), .sortBlocks, .cleanup]
+    (match parseStrict (B "go.mod") src none with
+     | .ok f => Edit.startOKb f && f.syn.stmts.all (fun x => match x with
+         | .lineBlock b => b.comments.suffix.isEmpty
+         | _ => true) && decide (Edit.MarkersSettable f.syn.stmts) && Edit.absOKB (Edit.absOf f)
+     | .error _ => false) &&
+    Edit.staticValidB false ops && ops.all (fun op => Edit.argsOKB op.toSpec) &&
+    Edit.outcomeIs (Edit.sessionMod src ops) (fun o => Edit.finalTreeB o.tree && Edit.absOKB o.typed && o.reparsed != some o.typed &&
+      o.typed.exclude == [(B "example.com/z", B "v1.0.0"), (B "example.com/y", B "v1.0.0"), (B "example.com/z", B "v1.1.0")] &&
+      (o.reparsed.map (·.exclude)) == some [(B "example.com/y", B "v1.0.0"), (B "example.com/z", B "v1.0.0"), (B "example.com/z", B "v1.1.0")]) = true := by
+  decide +kernel
+
+/-- … and its operations are go.mod operations -/
+example : ∀ op ∈ ([.addRequire (B "example.com/d") (B "v1.0.0"), .cleanup,
+          .setRequireSeparateIndirect [⟨B "example.com/a", B "v1.4.0", false⟩, ⟨B "example.com/e", B "v1.0.0", true⟩, ⟨B "example.com/c", B "v1.0.0", true⟩] true,
+          .cleanup, .setRequire [⟨B "example.com/a", B "v1.5.0", true⟩, ⟨B "example.com/q", B "v0.5.0", false⟩] false, .addTool (B "example.com/t"),
+          .addReplace (B "example.com/a") [] (B "../a") [], .addReplace (B "example.com/b") (B "v1.0.0") (B "example.com/c") (B "v1.2.0"),
+          .addGodebug (B "panicnil") (B "1"), .addRetract (B "v1.0.0") (B "v1.0.0") (B "bad"), .addExclude (B "example.com/z") (B "v1.1.0"), .sortBlocks, .cleanup] :
+      List Edit.Op), Edit.IsModOp op := by
+  intro op hop
+  simp only [List.mem_cons, List.mem_nil_iff, or_false] at hop
+  rcases hop with rfl | rfl | rfl | rfl | rfl | rfl | rfl | rfl | rfl | rfl | rfl | rfl | rfl <;> trivial
+
+/-- the condition on the final tree excludes the recorded blank-line finding: in `C15_violated_retract_blank_line_dropped`
+    SortBlocks leaves a blank-line placeholder at the top of the block, `finalTreeB` is false (and `Format` drops the line) -/
+example :
+    Edit.outcomeIs (Edit.sessionMod (B "// note\nretract (\n\t[v2.9.0, v2.0.0-alpha.1]\n\n\tv2.9.0\n)\n") [.sortBlocks])
+      (fun o => !Edit.finalTreeB o.tree && Edit.absOKB o.typed) = true := by
+  decide +kernel
+
+/-- non-vacuity of `reparse_one_line` / `reparse_first_run`: the items of a one-line file -/
+example : Edit.IOK [(1, Edit.Item.go (B "1.21"))] ∧ Edit.FI [(1, Edit.Item.go (B "1.21"))] {} [] ∧
+    Edit.Rend (Edit.Item.go (B "1.21")) [B "go", B "1.21"] [] := by
+  refine ⟨⟨by decide, ?_, ?_, ?_, ?_⟩, ⟨rfl, by simp [Edit.items], fun q hq => by cases hq⟩, rfl⟩
+  · intro q hq
+    simp only [List.mem_singleton] at hq; subst hq
+    exact Edit.itemOKB_sound (by decide +kernel)
+  · intro a b p q h; simp at h
+  · intro a b p q h1 h2; simp at h1 h2; omega
+  · intro a b p q h; simp at h
 
 end ModVerif.Props.C15
